@@ -11,7 +11,7 @@ from . import node as nodemod
 class Scenario:
     """an opened connection ready for traffic"""
 
-    def __init__(self, role, seed, watchdog=50, send_buffer=None):
+    def __init__(self, role, seed, watchdog=50, send_buffer=None, preempt=None):
         nodemod.ensure_installed()
         import bromelia.setup as bs
         self.saved_buf = bs.SEND_BUFFER_MAXIMUM_SIZE
@@ -21,6 +21,10 @@ class Scenario:
         self.n = nodemod.Node(role, seed=seed, watchdog=watchdog)
         self.s = self.n.s
         self.role = role
+        if preempt:
+            # finer-grained preemption inside the named bromelia functions (must be set before the threads start)
+            self.s.opcode_funcs, self.s.opcode_budget = set(preempt.get("opcode", ())), 6000
+            self.s.line_funcs, self.s.line_budget = set(preempt.get("line", ())), 6000
         # two thirds of the scenarios use PCT scheduling (long delays of one thread), the rest uniform random
         self.chooser = vsched.PCT(seed, depth=1 + seed % 4, horizon=600) if seed % 3 else None
 
@@ -206,13 +210,18 @@ def segmentations(raw, rng, kind):
     if kind == "one":
         c = rng.randrange(1, len(raw))
         return [raw[:c], raw[c:]]
-    cuts = sorted(set(rng.randrange(1, len(raw)) for _ in range(rng.randint(1, 5))))
+    cuts = sorted(set(rng.randrange(1, len(raw)) for _ in range(rng.randint(1, 5) if kind != "many" else rng.randint(8, 14))))
     return [raw[a:b] for a, b in zip([0] + cuts, cuts + [len(raw)])]
 
 
-def run_recv(seed, nmsgs, seg_kind, consumers, mix_base=True, cut=None):
+RECV_PREEMPT = {"opcode": ("read", "take_recv_data_stream"),
+                "line": ("recv_message_from_queue", "get_postprocess_recv_message", "get_message", "notify_postprocess_message")}
+
+
+def run_recv(seed, nmsgs, seg_kind, consumers, mix_base=True, cut=None, fine=None):
     rng = random.Random(seed)
-    sc = Scenario("client", seed)
+    fine = seed % 2 == 0 if fine is None else fine
+    sc = Scenario("client", seed, preempt=RECV_PREEMPT if fine else None)
     try:
         if not sc.open():
             return "connection did not open", {"blocked": sc.s.describe_blocked()}
@@ -228,6 +237,8 @@ def run_recv(seed, nmsgs, seg_kind, consumers, mix_base=True, cut=None):
                 m.header.end_to_end = 0x2000 + k
                 seq.append((kind, m))
         raw = b"".join(m.dump() for _k, m in seq)
+        if cut is not None and not 0 < cut < len(raw):
+            return None, {"skipped": "cut outside the stream"}
         segs = [raw[:cut], raw[cut:]] if cut is not None else segmentations(raw, rng, seg_kind)
         app = [m for k, m in seq if k != "DWR"]
         got = {c: [] for c in range(consumers)}
@@ -282,6 +293,126 @@ def run_recv(seed, nmsgs, seg_kind, consumers, mix_base=True, cut=None):
         if [(m.header.hop_by_hop, m.header.end_to_end) for m in dwas] != want_ids:
             problems.append(f"{len(dwas)} DWA for {len(want_ids)} DWR, or not in the order sent")
         return ("; ".join(problems) if problems else None), {"end": end, "segments": len(segs), "messages": nmsgs}
+    finally:
+        sc.close_scenario()
+
+
+def run_recv_sweep(kind, k, seed=1):
+    """One-preemption sweep: the victim thread is stopped after k (opcode / line level) steps of its critical
+    section, the intruder then runs its complete conflicting operation, then everything runs freely.
+    kind: 'transport/worker' 'worker/transport' 'consumer/psm' 'psm/consumer' 'consumer/consumer'.
+    Returns (verdict, info); info['ended'] is True when k is beyond the victim's section."""
+    sc = Scenario("client", seed * 3, preempt=RECV_PREEMPT)         # seed * 3: uniform random free-running phase
+    try:
+        if not sc.open():
+            return "connection did not open", {"ended": True}
+        n, s = sc.n, sc.s
+        a = n.assoc
+        m1, m2 = n.make("REQ", True, 1), n.make("ANS", True, 1)
+        m1.header.hop_by_hop, m1.header.end_to_end = 0x1001, 0x2001
+        m2.header.hop_by_hop, m2.header.end_to_end = 0x1002, 0x2002
+        victim_name, intruder_name = kind.split("/")
+        nc = 2 if kind == "consumer/consumer" else 1
+        got = {c: [] for c in range(nc)}
+        share = [1, 1] if nc == 2 else [2]
+
+        def consumer(c):
+            for _ in range(share[c]):
+                got[c].append(n.d.get_message())
+        cons = [s.spawn(f"consumer{c}", consumer, c) for c in range(nc)]
+        byname = {"transport": "transport_layer_thread", "worker": "recv_message_monitor", "psm": "client_psm_thread"}
+
+        def thread(nm, i=0):
+            if nm == "consumer":
+                return cons[i]
+            return [t for t in s.threads if t.name == byname[nm]][-1]
+
+        def solo(ts, cond, limit=4000):
+            """run only the threads ts (first enabled first) until cond()"""
+            for _ in range(limit):
+                if cond():
+                    return True
+                go = [t for t in ts if s.enabled(t) == "go"]
+                if not go:
+                    return cond()
+                s.step(go[0])
+            return cond()
+        tr, wk, psm = thread("transport"), thread("worker"), thread("psm")
+        at_select = lambda: tr.pending is not None and tr.pending[0] == "select" and not n.sock.inbox
+        wk_waiting = lambda: wk.pending is not None and wk.pending[0] == "wait" and not a.transport._recv_data_available.flag
+        cons_waiting = lambda c: c.done or (c.pending is not None and c.pending[0] == "wait" and not c.pending[1].flag)
+        # the consumers reach their wait
+        solo(cons, lambda: all(cons_waiting(c) for c in cons))
+        ended = False
+        if kind == "transport/worker":
+            n.feed(m1.dump())
+            solo([tr], lambda: at_select() and a.transport._recv_data_available.flag)
+            n.feed(m2.dump())
+            for _ in range(k):
+                if s.enabled(tr) != "go" or (at_select() and _ > 0):
+                    ended = True
+                    break
+                s.step(tr)
+            solo([wk], wk_waiting)
+        elif kind == "worker/transport":
+            n.feed(m1.dump())
+            solo([tr], lambda: at_select() and a.transport._recv_data_available.flag)
+            for _ in range(k):
+                if s.enabled(wk) != "go" or (wk_waiting() and _ > 0):
+                    ended = True
+                    break
+                s.step(wk)
+            n.feed(m2.dump())
+            solo([tr], at_select)
+        elif kind in ("consumer/psm", "psm/consumer"):
+            n.feed(m1.dump())
+            solo([tr, wk], lambda: at_select() and a._recv_messages.items and wk_waiting())
+            if kind == "consumer/psm":
+                solo([psm], lambda: len(a.postprocess_recv_messages.items) >= 1 and n.at_ticker(psm))
+                n.feed(m2.dump())
+                solo([tr, wk], lambda: at_select() and a._recv_messages.items and wk_waiting())
+                for _ in range(k):
+                    if s.enabled(cons[0]) != "go" or len(got[0]) >= 1:
+                        ended = True
+                        break
+                    s.step(cons[0])
+                solo([psm], lambda: not a._recv_messages.items and n.at_ticker(psm))
+            else:
+                for _ in range(k):
+                    if s.enabled(psm) != "go" or (len(a.postprocess_recv_messages.items) >= 1 and n.at_ticker(psm)):
+                        ended = True
+                        break
+                    s.step(psm)
+                solo([cons[0]], lambda: cons_waiting(cons[0]))
+                n.feed(m2.dump())
+        else:                                                   # consumer/consumer: one message, two takers
+            n.feed(m1.dump())
+            solo([tr, wk, psm], lambda: len(a.postprocess_recv_messages.items) >= 1 and n.at_ticker(psm))
+            for _ in range(k):
+                if s.enabled(cons[0]) != "go" or cons[0].done:
+                    ended = True
+                    break
+                s.step(cons[0])
+            solo([cons[1]], lambda: cons_waiting(cons[1]))
+            n.feed(m2.dump())
+        try:
+            sc.run(until=lambda: all(c.done for c in cons), limit=30000)
+            end = sc.settle(limit=4000)
+        except vsched.Deadlock as e:
+            end = "deadlock: " + str(e)
+        except (vsched.StepLimit, vsched.StepHang) as e:
+            end = type(e).__name__ + ": " + str(e)
+        problems = []
+        if n.dead_threads():
+            problems.append(f"threads died: {n.dead_threads()}")
+        delivered = [m for c in range(nc) for m in got[c]]
+        dd = [m.dump() if m is not None else None for m in delivered]
+        want = [m1.dump(), m2.dump()]
+        if (dd != want) if nc == 1 else (sorted(x or b"" for x in dd) != sorted(want)):
+            problems.append(f"delivered {len(dd)} message(s) for 2 sent, or not the messages sent in the order sent")
+        if not all(c.done for c in cons):
+            problems.append("a consumer is still waiting although every message was sent: " + s.describe_blocked()[:300])
+        return ("; ".join(problems) if problems else None), {"ended": ended, "end": end}
     finally:
         sc.close_scenario()
 
